@@ -137,6 +137,23 @@ def eval_point(pt, R):
                         np.asarray(o.ar), np.asarray(a2), 'pyule recomputed after a data change does not hold the Yule-Walker model of the new data')
             except Exception as e:
                 R.viol('pyule_history', dict(feats, exc=type(e).__name__), pt, repr(e), None, 'pyule history raised')
+        if p == 3 and not (x.dtype.kind in 'iu'):
+            # three-step history: compute, raise the order beyond the CURRENT record length, then assign a longer record, compute
+            R.calls(3)
+            try:
+                xl = np.concatenate([x, 0.5 * x[::-1] + 0.25, x])
+                big = N + 2
+                o = spectrum.pyule(x, p, NFFT=4 * N)
+                o()
+                o.ar_order = big
+                o.data = xl
+                o()
+                a3, P3, k3 = spectrum.aryule(xl, big, 'biased')
+                R.check(len(np.asarray(o.ar)) == big and close(np.asarray(o.ar), np.asarray(a3), 1e-12, 1e-14), 'pyule_history', dict(feats, order='raised beyond old N'),
+                        dict(pt, history=['compute', 'ar_order=N+2', 'data=3N record', 'compute']), np.asarray(o.ar), np.asarray(a3),
+                        'pyule after raising the order and assigning a longer record does not hold the model of that order')
+            except Exception as e:
+                R.viol('pyule_history', dict(feats, exc=type(e).__name__, order='raised beyond old N'), pt, repr(e), None, 'pyule history raised')
     R.calls()
     try:
         obj = spectrum.pyule(x, p)
